@@ -25,7 +25,7 @@ Qed.
 Definition day_ok (k : Z) : bool :=
   let d := civil_from_days k in
   match parse_ymd (fmt_date d) with
-  | Some d' => date_eqb d' d && negb (date_ltb d d) && forallb (fun b => negb (b =? 34) && negb (b =? 60) && negb (b =? 62)) (fmt_date d)
+  | Some d' => date_eqb d' d && negb (date_ltb d d) && forallb (fun b => negb (b =? 34) && negb (b =? 60) && negb (b =? 62) && negb (b =? 10)) (fmt_date d)
                && negb (match fmt_date d with [] => true | _ => false end)
   | None => false
   end.
@@ -34,7 +34,8 @@ Lemma days_sweep : forallb day_ok (zrange 0 (Z.to_nat 49711)) = true.
 Proof. vm_compute. reflexivity. Qed.
 
 Lemma date_written_reads_back e d : (0 <= e < 4294967296)%Z -> date_of_unix e = Some d ->
-  parse_ymd (fmt_date d) = Some d /\ date_ltb d d = false /\ ~ In 34 (fmt_date d) /\ ~ In 60 (fmt_date d) /\ ~ In 62 (fmt_date d) /\ fmt_date d <> [].
+  parse_ymd (fmt_date d) = Some d /\ date_ltb d d = false /\ ~ In 34 (fmt_date d) /\ ~ In 60 (fmt_date d) /\ ~ In 62 (fmt_date d) /\ fmt_date d <> [] /\
+  ~ In 10 (fmt_date d).
 Proof.
   intros He Hd. apply date_of_unix_utc in Hd. subst d.
   pose proof days_sweep as S. rewrite forallb_forall in S.
@@ -45,9 +46,10 @@ Proof.
   apply andb_prop in S. destruct S as [S S4]. apply andb_prop in S. destruct S as [S S3]. apply andb_prop in S. destruct S as [S1 S2].
   apply date_eqb_eq in S1. subst d'. apply negb_true_iff in S2.
   rewrite forallb_forall in S3.
-  assert (Hn : forall c, (c = 34 \/ c = 60 \/ c = 62) -> ~ In c (fmt_date (civil_from_days (e / 86400)))).
-  { intros c Hc Hin. specialize (S3 c Hin). destruct Hc as [-> | [-> | ->]]; discriminate S3. }
+  assert (Hn : forall c, (c = 34 \/ c = 60 \/ c = 62 \/ c = 10) -> ~ In c (fmt_date (civil_from_days (e / 86400)))).
+  { intros c Hc Hin. specialize (S3 c Hin). destruct Hc as [-> | [-> | [-> | ->]]]; discriminate S3. }
   split; [reflexivity|]. split; [exact S2|]. split; [apply Hn; auto|]. split; [apply Hn; auto|]. split; [apply Hn; auto|].
+  split; [|apply Hn; auto].
   intros E. rewrite E in S4. discriminate.
 Qed.
 
